@@ -536,7 +536,7 @@ def _run_gram(case):
                         api, J.show(case['hint']), name, str(e)[:200]), 'family_decor:' + name)
                 elif stage == 'call' and not isinstance(e, (roar.BeartypeCallException,)):
                     viol = ('wrong_family', '%s with hint %s raised %s at call time (not a BeartypeCallException): %s' % (
-                        api, J.show(case['hint']), name, str(e)[:200]), 'family_call:' + name)
+                        api, J.show(case['hint']), name, str(e)[:400]), 'family_call:' + name)
                 if viol:
                     break
     if viol is None:
@@ -607,7 +607,22 @@ def _sig_deep(case, v):
     return key.startswith('leak:RecursionError:') or key.startswith('leak:_BeartypeUtilCallableException:utilfuncmake.py:make_func')
 
 
-SIGNATURES = {'deeply_nested_hint': _sig_deep}
+def _sig_alias_unhashable(case, v):
+    """Known finding C11-pep695-alias-unhashable-arg: recursion guard keyed by the (unhashable) subscripted alias."""
+    return (case.get('mode') == 'gram' and v.get('kind') == 'leaked_exception' and v.get('key', '').startswith('leak:TypeError:')
+            and v.get('key', '').endswith(('_redrecurse.py:make_hint_sane_recursable', '_redrecurse.py:is_hint_recursive'))
+            and 'unhashable' in v.get('detail', ''))
+
+
+def _sig_scope_not_propagated(case, v):
+    """Known finding C11-fwdref-scope-not-propagated (same defect as C07-fwdref-hidden-in-ignorable-child)."""
+    return (case.get('mode') == 'gram' and v.get('kind') == 'wrong_family'
+            and 'BeartypeDecorHintForwardRefException at call time' in v.get('detail', '')
+            and 'forward refere' in v.get('detail', ''))
+
+
+SIGNATURES = {'deeply_nested_hint': _sig_deep, 'pep695_alias_unhashable_arg': _sig_alias_unhashable,
+              'fwdref_scope_not_propagated': _sig_scope_not_propagated}
 
 
 def describe(case):
